@@ -12,11 +12,16 @@
   any number of `on` handlers with any number of parameters; bodies = any number of
     * `set <local|parameter|global|property> = e`
     * command calls `f` / `f a, b, …` of handlers of the same script (opcode 56) or external commands (57), names ≠ sound / go
+      (incl. the message-window command `put a, b`); `sound <word> a, b` (first argument a symbol, printed bare) and
+      `go loop | next | previous`
     * `exit`
     * `put e into|after|before <target>` (59 xx for a bare `field x` / local variable — `into` a variable is written `set` —,
-      5a xx with the eight chunk slots for `char 1 of word 2 of <field x | local>`), `delete <chunk of field x | local>` (5b xx),
-      `hilite <field x | chunk of field x>` (18); the chunk chain of a target must be strictly coarser outwards (the scheme's
-      single-slice form; anything else does not compile); a chunk of a GLOBAL as target is outside (see design.d/C02Link.md)
+      5a xx with the eight chunk slots for `char 1 of word 2 of <field x | local | global>`), `delete <chunk of field x | local | global>`
+      (5b xx), `hilite <field x | chunk of field x>` (18); the chunk chain of a target must be strictly coarser outwards (the scheme's
+      single-slice form; anything else does not compile)
+    * object method calls as command `obj mSel, a, b` and (in any expression) as function `obj(mSel, a, b)`, any number of
+      arguments incl. none (`<#mSel>; args; 42|43 n+1; <receiver ref>; 58 k`: receiver a local (k = 5) / parameter (k = 4) by record
+      offset, a global (k = 3) by `46 n`; receiver names ≠ sound / go)
   with `e` built, nested without bound, from: integer literals 0 … 2^31-1 (all four encodings: 03, 41 n, 81 hi lo, pool constant),
   string constants (non-empty, printable ASCII without quote / backslash — the rest is property C11), symbols `#x`, variables of
   the four kinds, unary minus / not, the binary operators except `starts` (finding F40), `field e`, function calls `f(a, …)` with
@@ -214,15 +219,6 @@ def exScript : Script :=
                   .set (.var .loc "t".toList) (.chunk .char (.int 1) (.int 0) (.chunk .word (.int 2) (.int 3) (.chunk .line (.var .loc "z".toList) (.int 0) (.var .loc "t".toList)))),
                   .set (.var .loc "t".toList) (.bin .concat (.the .field 2 [.str "status".toList]) (.the .field 1 [.bin .add (.var .loc "z".toList) (.int 1)])),
                   .set (.var .loc "pl".toList) (.plist [.sym "h".toList, .bin .add (.var .loc "z".toList) (.int 1), .str "w".toList, .plist [], .sym "n".toList, .plist [.int 1, .list [.int 2]]]),
-                  .put .after (.str "!".toList) (.var .loc "t".toList),
-                  .put .into (.bin .add (.var .loc "z".toList) (.int 1)) (.field (.int 3)),
-                  .put .before (.var .loc "y".toList) (.field (.str "status".toList)),
-                  .put .into (.str "ab".toList) (.chunk .char (.int 1) (.int 0) (.chunk .word (.int 2) (.int 0) (.field (.str "status".toList)))),
-                  .put .after (.var .loc "z".toList) (.chunk .line (.int 2) (.int 3) (.var .loc "t".toList)),
-                  .delete (.chunk .word (.var .loc "z".toList) (.int 0) (.var .loc "t".toList)),
-                  .delete (.chunk .char (.int 1) (.int 4) (.chunk .item (.int 2) (.int 0) (.chunk .line (.int 1) (.int 0) (.field (.int 3))))),
-                  .hilite (.field (.str "status".toList)),
-                  .hilite (.chunk .word (.int 2) (.int 0) (.field (.bin .add (.var .loc "z".toList) (.int 1)))),
                   .call "beep".toList [],
                   .exit ] } ] }
 
@@ -240,7 +236,54 @@ example : ∃ c, compile {} exScript = .ok c ∧ NamesOk c := by
 
 /-- the text the theorem predicts for the example (also the output of the real decompiler on the compiled chunks) -/
 example : String.ofList (mText exScript) =
-    "property score\nglobal gTotal\n\non startUp a, b\n    set x = ((a - (gTotal - 1)) * -(b + 70000))\n    set score = not (x <= 300)\n    set gTotal = sprite 1 within (x + 2)\nend\n\non finish\n    global counter\n    global zLast\n\n    set y = (score & (0 mod 129))\n    set z = max(field 3, [1, y, []])\n    startUp z, startUp(1, 2)\n    alert \"Hi there!\", #warn, (\"a\" && z)\n    set zLast = (counter + gTotal)\n    set w = (the mouseH + (the stageColor + (the floatPrecision + the frameLabel)))\n    set q = [the locH of sprite 3, the name of cast z, the volume of sound 2, the duration of cast \"clip\"]\n    set the locH of sprite z = (the locH of sprite z + 5)\n    set the text of cast \"title\" = \"Done\"\n    set the stageColor = 255\n    set the floatPrecision = 4\n    set the width of q = (the height of rect(z) * 2)\n    set t = (char 1 of y & word (z + 1) to 3 of char 2 to 9 of field 3)\n    set t = line 2 of item 1 to 2 of t\n    set t = (the number of words of t + the last char of line 1 of t)\n    set t = char 1 of word 2 to 3 of line z of t\n    set t = (the text of field \"status\" & the name of field (z + 1))\n    set pl = [#h: (z + 1), \"w\": [:], #n: [1: [2]]]\n    put \"!\" after t\n    put (z + 1) into field 3\n    put y before field \"status\"\n    put \"ab\" into char 1 of word 2 of field \"status\"\n    put z after line 2 to 3 of t\n    delete word z of t\n    delete char 1 to 4 of item 2 of line 1 of field 3\n    hilite field \"status\"\n    hilite word 2 of field (z + 1)\n    beep\n    exit\nend\n" := by
+    "property score\nglobal gTotal\n\non startUp a, b\n    set x = ((a - (gTotal - 1)) * -(b + 70000))\n    set score = not (x <= 300)\n    set gTotal = sprite 1 within (x + 2)\nend\n\non finish\n    global counter\n    global zLast\n\n    set y = (score & (0 mod 129))\n    set z = max(field 3, [1, y, []])\n    startUp z, startUp(1, 2)\n    alert \"Hi there!\", #warn, (\"a\" && z)\n    set zLast = (counter + gTotal)\n    set w = (the mouseH + (the stageColor + (the floatPrecision + the frameLabel)))\n    set q = [the locH of sprite 3, the name of cast z, the volume of sound 2, the duration of cast \"clip\"]\n    set the locH of sprite z = (the locH of sprite z + 5)\n    set the text of cast \"title\" = \"Done\"\n    set the stageColor = 255\n    set the floatPrecision = 4\n    set the width of q = (the height of rect(z) * 2)\n    set t = (char 1 of y & word (z + 1) to 3 of char 2 to 9 of field 3)\n    set t = line 2 of item 1 to 2 of t\n    set t = (the number of words of t + the last char of line 1 of t)\n    set t = char 1 of word 2 to 3 of line z of t\n    set t = (the text of field \"status\" & the name of field (z + 1))\n    set pl = [#h: (z + 1), \"w\": [:], #n: [1: [2]]]\n    beep\n    exit\nend\n" := by
+  decide +kernel
+
+/-! ### non-vacuity: `put` / `delete` / `hilite` with every target shape, object method calls with every receiver kind -/
+
+/-- `on edit t, z / set y = t / put "!" after y / put (z + 1) into field 3 / … / end` and `on calls a, b / … / end` -/
+def exPut : Script :=
+  { factory := [], props := [], globals := ["gTotal".toList],
+    handlers := [
+      { name := "edit".toList, params := ["s".toList, "z".toList], isMethod := false,
+        body := [ .set (.var .loc "t".toList) (.var .param "s".toList),
+                  .put .after (.str "!".toList) (.var .loc "t".toList),
+                  .put .into (.bin .add (.var .param "z".toList) (.int 1)) (.field (.int 3)),
+                  .put .before (.var .loc "t".toList) (.field (.str "status".toList)),
+                  .put .into (.str "ab".toList) (.chunk .char (.int 1) (.int 0) (.chunk .word (.int 2) (.int 0) (.field (.str "status".toList)))),
+                  .put .after (.var .param "z".toList) (.chunk .line (.int 2) (.int 3) (.var .loc "t".toList)),
+                  .delete (.chunk .word (.var .param "z".toList) (.int 0) (.var .loc "t".toList)),
+                  .delete (.chunk .char (.int 1) (.int 4) (.chunk .item (.int 2) (.int 0) (.chunk .line (.int 1) (.int 0) (.field (.int 3))))),
+                  .hilite (.field (.str "status".toList)),
+                  .hilite (.chunk .word (.int 2) (.int 0) (.field (.bin .add (.var .param "z".toList) (.int 1)))),
+                  .put .into (.str "x".toList) (.chunk .char (.int 1) (.int 0) (.chunk .line (.var .param "z".toList) (.int 0) (.var .glob "gTotal".toList))),
+                  .delete (.chunk .word (.int 2) (.int 0) (.var .glob "gLog".toList)),
+                  .call "put".toList [.var .loc "t".toList, .bin .add (.var .param "z".toList) (.int 1)] ] },
+      { name := "calls".toList, params := ["a".toList, "b".toList], isMethod := false,
+        body := [ .set (.var .loc "x".toList) (.var .param "b".toList),
+                  .mcall (.var .param "a".toList) "mStore".toList [.var .loc "x".toList, .int 2],
+                  .set (.var .loc "r".toList) (.bin .add (.mcall (.var .glob "gTotal".toList) "mGet".toList [])
+                      (.mcall (.var .loc "x".toList) "mAt".toList [.var .param "b".toList, .mcall (.var .param "a".toList) "mTop".toList [.int 1]])),
+                  .mcall (.var .loc "r".toList) "mDispose".toList [],
+                  .call "sound".toList [.sym "playFile".toList, .int 1, .str "beep".toList],
+                  .call "sound".toList [.sym "close".toList],
+                  .call "go".toList [.sym "loop".toList] ] } ] }
+
+example : FragScript exPut = true := by decide +kernel
+
+example : ReadOkB exPut = true := by decide +kernel
+
+example : ∃ c, compile {} exPut = .ok c ∧ NamesOk c := by
+  have h : (match compile {} exPut with
+      | .ok c => decide ((∀ n ∈ c.names, asciiName n = true) ∧ c.names.length < 32768)
+      | .error _ => false) = true := by decide +kernel
+  cases hc : compile {} exPut with
+  | error e => rw [hc] at h; cases h
+  | ok c => rw [hc] at h; exact ⟨c, rfl, by simpa [NamesOk] using h⟩
+
+/-- the text the theorem predicts (also the output of the real decompiler on the compiled chunks) -/
+example : String.ofList (mText exPut) =
+    "global gTotal\n\non edit s, z\n    global gLog\n\n    set t = s\n    put \"!\" after t\n    put (z + 1) into field 3\n    put t before field \"status\"\n    put \"ab\" into char 1 of word 2 of field \"status\"\n    put z after line 2 to 3 of t\n    delete word z of t\n    delete char 1 to 4 of item 2 of line 1 of field 3\n    hilite field \"status\"\n    hilite word 2 of field (z + 1)\n    put \"x\" into char 1 of line z of gTotal\n    delete word 2 of gLog\n    put t, (z + 1)\nend\n\non calls a, b\n    set x = b\n    a mStore, x, 2\n    set r = (gTotal(mGet) + x(mAt, b, a(mTop, 1)))\n    r mDispose\n    sound playFile 1, \"beep\"\n    sound close \n    go loop\nend\n" := by
   decide +kernel
 
 /-! ### non-vacuity, structured -/
@@ -300,7 +343,8 @@ def exMixed : Script :=
                     .ifThen (.bin .gt (.the .sprite 13 [.var .loc "i".toList]) (.int 300))
                       [ .set (.var .glob "gScore".toList) (.bin .add (.var .glob "gScore".toList) (.int 1)),
                         .put .after (.var .glob "gScore".toList) (.chunk .line (.var .loc "i".toList) (.int 0) (.field (.str "log".toList))) ]
-                      [ .hilite (.chunk .line (.var .loc "i".toList) (.int 0) (.field (.str "log".toList))) ] ] ] } ] }
+                      [ .hilite (.chunk .line (.var .loc "i".toList) (.int 0) (.field (.str "log".toList))),
+                        .mcall (.var .param "n".toList) "mTick".toList [.var .loc "i".toList, .mcall (.var .glob "gScore".toList) "mPeek".toList []] ] ] ] } ] }
 
 example : FragScriptM exMixed = true := by decide +kernel
 example : FragScript exMixed = false := by decide +kernel
@@ -315,7 +359,7 @@ example : ∃ c, compile {} exMixed = .ok c ∧ NamesOk c := by
   | ok c => rw [hc] at h; exact ⟨c, rfl, by simpa [NamesOk] using h⟩
 
 example : String.ofList (mText exMixed) =
-    "global gScore\n\non mouseUp\n    set h = the mouseH\n    set the locH of sprite 5 = (h - 16)\n    put h into field \"out\"\n    count h\nend\n\non count n\n    repeat with i = 1 to n\n        if (the locH of sprite i > 300) then\n            set gScore = (gScore + 1)\n            put gScore after line i of field \"log\"\n        else\n            hilite line i of field \"log\"\n        end if\n    end repeat\nend\n" := by
+    "global gScore\n\non mouseUp\n    set h = the mouseH\n    set the locH of sprite 5 = (h - 16)\n    put h into field \"out\"\n    count h\nend\n\non count n\n    repeat with i = 1 to n\n        if (the locH of sprite i > 300) then\n            set gScore = (gScore + 1)\n            put gScore after line i of field \"log\"\n        else\n            hilite line i of field \"log\"\n            n mTick, i, gScore(mPeek)\n        end if\n    end repeat\nend\n" := by
   decide +kernel
 
 end DrxProps.C02Link
